@@ -49,6 +49,11 @@ func complete(cmd *cobra.Command, args []string) (string, error) {
 			}
 		}
 
+		if len(args) < 2 {
+			// the patched line has no word of this command left (empty pipeline): nothing to complete
+			return Action{}.Invoke(NewContext()).value(args[0], ""), nil
+		}
+
 		action, context := traverse(cmd, args[2:])
 		if err := config.Load(); err != nil {
 			action = ActionMessage("failed to load config: " + err.Error())
